@@ -76,6 +76,9 @@ pub struct Case {
     pub start_seq: u16,
     pub initial_minter: Option<u8>,
     pub ops: Vec<Op>,
+    /// entry-point sweep case (see sweep.rs); the other fields are ignored
+    #[serde(default)]
+    pub sweep: Option<crate::sweep::SweepCase>,
 }
 
 fn idx() -> impl Strategy<Value = u8> {
@@ -205,17 +208,25 @@ impl Property for C12 {
         let max = tier.pick(40usize, 70usize);
         // one op in ten has all its account roles aliased to one account (from == to == spender)
         let aliased_op = (op(), 0u8..10).prop_map(|(o, r)| if r == 0 { alias_all(o) } else { o });
-        (0u16..300, crate::engine::opt_of(idx()), proptest::collection::vec(aliased_op, 0..max), crate::engine::repeats())
-            .prop_map(|(start_seq, initial_minter, ops, reps)| Case { start_seq, initial_minter, ops: crate::engine::with_repeats(ops, &reps) })
-            .boxed()
+        let direct = (0u16..300, crate::engine::opt_of(idx()), proptest::collection::vec(aliased_op, 0..max), crate::engine::repeats())
+            .prop_map(|(start_seq, initial_minter, ops, reps)| Case { sweep: None, start_seq, initial_minter, ops: crate::engine::with_repeats(ops, &reps) });
+        let direct = direct.boxed();
+        // a fifth of the random cases: entry-point sweep with the role rules (who may mint is a role: it changes hands
+        // only with the authorisation of the token's owner or of a minter of that moment)
+        match crate::sweep::strategy(crate::sweep::Rule::Roles) {
+            Some(sw) => prop_oneof![4 => direct, 1 => sw.prop_map(|s| Case { sweep: Some(s), start_seq: 0, initial_minter: None, ops: vec![] })].boxed(),
+            None => direct,
+        }
     }
     fn fixed_cases(&self, _tier: Tier) -> Vec<Case> {
-        vec![
+        let mut v: Vec<Case> = crate::sweep::fixed_cases(1500).into_iter().filter(|s| s.ep.contract == "interchain-token").map(|s| Case { sweep: Some(s), start_seq: 0, initial_minter: None, ops: vec![] }).collect();
+        v.extend(vec![
             // ownership transfer event content
-            Case { start_seq: 10, initial_minter: None, ops: vec![Op::TransferOwnership { to: 1, via_set_admin: false }] },
-            Case { start_seq: 10, initial_minter: None, ops: vec![Op::TransferOwnership { to: 2, via_set_admin: true }] },
+            Case { sweep: None, start_seq: 10, initial_minter: None, ops: vec![Op::TransferOwnership { to: 1, via_set_admin: false }] },
+            Case { sweep: None, start_seq: 10, initial_minter: None, ops: vec![Op::TransferOwnership { to: 2, via_set_admin: true }] },
             // allowance used exactly at its expiration ledger, then one ledger later
             Case {
+                sweep: None,
                 start_seq: 5,
                 initial_minter: None,
                 ops: vec![
@@ -230,14 +241,19 @@ impl Property for C12 {
             },
             // approval with an already expired ledger
             Case {
+                sweep: None,
                 start_seq: 20,
                 initial_minter: None,
                 ops: vec![Op::Approve { from: 0, spender: 1, amt: Amt::One, exp: Exp::Past }, Op::Approve { from: 0, spender: 1, amt: Amt::Zero, exp: Exp::Past }],
             },
-        ]
+        ]);
+        v
     }
 
     fn run(&self, case: &Case, cx: &mut Cx) -> Result<(), String> {
+        if let Some(sw) = &case.sweep {
+            return crate::sweep::run(sw, cx, crate::sweep::Rule::Roles);
+        }
         let env = new_env();
         env.mock_all_auths();
         // (two thirds of the histories start near a live network's ledger sequence, one third near zero)
